@@ -47,6 +47,9 @@ class C09(Property):
              (LOC_PY, "location_bridges_origin"),
              ("antismash/common/secmet/features/feature.py", "Feature.get_sub_location_from_protein_coordinates"),
              ("antismash/common/secmet/features/feature.py", "Feature.from_biopython"),
+             ("antismash/common/secmet/features/feature.py", "Feature.start"),
+             ("antismash/common/secmet/features/feature.py", "Feature.end"),
+             ("antismash/common/secmet/features/feature.py", "Feature.__init__"),
              ("antismash/common/secmet/features/cds_feature.py", "CDSFeature.from_biopython"),
              ("antismash/common/secmet/features/cds_feature.py", "_ensure_valid_translation"),
              ("antismash/common/secmet/features/cds_feature.py", "CDSFeature.translation"),
@@ -392,6 +395,11 @@ class C09(Property):
         seq = Seq(dna)
         gene_extract = str(location.extract(seq))
         out: Dict[str, Any] = {"gene_extract": gene_extract}
+        try:    # Feature.start / Feature.end: the gene's ends in transcription order
+            probe = Feature(location, feature_type="test")
+            out["feature_ends"] = [int(probe.start), int(probe.end)]
+        except Exception as exc:  # pylint: disable=broad-except
+            out["feature_ends"] = _err(exc)["err"]
 
         def describe(loc: Any) -> Dict[str, Any]:
             return {"loc": common.location_json(loc), "extract": str(loc.extract(seq))}
@@ -804,6 +812,14 @@ class C09(Property):
         return model.get("err") if "err" in model else model["ok"]
 
     def judge(self, case: Dict[str, Any], obs: Dict[str, Any], drv: Optional[Dict[str, Any]]) -> Judgement:
+        """total on everything `shrink` yields: a variant the observables do not fit is reported as a correspondence
+           problem (never hidden, never a spec failure)"""
+        try:
+            return self._judge(case, obs, drv)
+        except (KeyError, TypeError, IndexError, AttributeError) as exc:
+            return Judgement(False, True, detail=f"judge not applicable to this variant: {type(exc).__name__} {exc}")
+
+    def _judge(self, case: Dict[str, Any], obs: Dict[str, Any], drv: Optional[Dict[str, Any]]) -> Judgement:
         assert drv is not None
         if "err" in drv and "model" not in drv:
             return Judgement(False, True, detail=f"driver error {drv['err']}")
@@ -819,6 +835,16 @@ class C09(Property):
         if not link_ok:
             return Judgement(False, True, in_scope=scope, tags=tuple(tags),
                              detail="Biopython extract disagrees with the transcription-order reading")
+        ends = obs.get("feature_ends")
+        if isinstance(ends, list) and scope:
+            rev = loc["parts"][0][2] == -1
+            want = [drv["last_base"], drv["first_base"] + 1] if rev else [drv["first_base"], drv["last_base"] + 1]
+            if ends != [drv["feature_start"], drv["feature_end"]]:
+                return Judgement(False, ends == want, in_scope=scope, tags=tuple(tags),
+                                 detail=f"Feature.start/end {ends} vs model {[drv['feature_start'], drv['feature_end']]}")
+            if ends != want:
+                return Judgement(True, False, in_scope=scope, tags=tuple(tags),
+                                 detail=f"Feature.start/end {ends} are not the gene's ends in transcription order {want}")
         if kind == "cds_table":
             return self._judge_cds_table(case, obs, drv, scope, tags)
         if kind == "record_rt":
